@@ -89,7 +89,11 @@ func newTablesCmd() *cobra.Command {
 								return err
 							}
 						}
-						if shallowErr := apiclient.NewShallowCommitError(db, rs, coms); shallowErr != nil {
+						shallowErr, err := apiclient.NewShallowCommitError(db, rs, coms)
+						if err != nil {
+							return err
+						}
+						if shallowErr != nil {
 							if err = fetchTableSums(cmd, db, cm, c, shallowErr.TableSums, barContainer); err != nil {
 								return err
 							}
